@@ -141,6 +141,9 @@ PROPS["C12"] = {
         # "if the fit failed … returns the fit result as Err": fit_with_statistics may rely on `self.fit(problem)?`, whose own
         # Ok ⇔ successful mapping is this rule
         ("R-FIT-MAP", _fit_map, {}),
+        # "without panicking" also when N <= M: the matrix operations of the fit and of the statistics conform for every shape
+        # (a workspace sized for N >= M would make nalgebra panic before the degrees-of-freedom guard is reached)
+        ("R-SHAPES", shapes.rule_shapes, {"parts": ("set_params", "jacobian", "statistics")}),
     ],
     "explanation": "Guard-before-subtraction and decision-table rules on FitStatistics' constructor and fit_with_statistics: the "
                    "degrees-of-freedom role is N-(M+P) of the model counts, every overflow-checked subtraction of these operands is "
@@ -414,6 +417,8 @@ PROPS["C18"] = {
         ("R-DATA-WEIGHT-ONCE", rp2.rule_data_weight_once, {}),
         ("R-OBS-RESHAPE", rp2.rule_obs_reshape, {}),
         ("R-WEIGHTS-CTOR", rp2.rule_weights_ctor, {}),
+        # "USES the absolute value of a supplied singular-value threshold": the solve takes the stored field as its epsilon, unmodified
+        ("R-COEF-SOLVE", rp.rule_coef_solve, {}),
     ],
     "explanation": "build() decision table by edge dominance: each LevMarBuilderError only under its own condition and Ok only after data present, non-zero lengths, equal row counts and fitting weights; "
                    "Ok(problem) passes LeastSquaresProblem::set_params(&mut problem, &model.params()) after the struct is built with an empty cache; each setter writes exactly its own field (frame rule), so call order only matters through last-write-wins; all constructors build the same empty builder; epsilon stored as |eps|.",
